@@ -271,7 +271,7 @@ void run_d(Input const& in, Ctx& ctx) {
 	using Cfg = std::conditional_t<VP_C18_BASED != 0, vp::CfgBased, vp::CfgRaw>;
 	auto r = vp::decode_root<D, Cfg::based>(in, ctx);
 	if(r.N == 0) { ctx.label("root_empty_skipped"); return; }  // a view without elements has no message to check (and C01 owns the zero-element view algebra)
-	Plan plan{static_cast<int>(in.head(10) % NFORMS), static_cast<int>(in.head(11) % NFORMS), static_cast<int>(in.head(12) % 2U), static_cast<int>(in.head(13) % 2U), 1 + static_cast<int>(in.head(14) % 3U), static_cast<int>(in.head(17) % 7U), in.head(15), in.head(16), in.head(18)};
+	Plan plan{static_cast<int>(in.head(10) % NFORMS), static_cast<int>(in.head(11) % NFORMS), static_cast<int>(in.head(12) % 2U), static_cast<int>(in.head(13) % 2U), 1 + static_cast<int>(in.head(14) % 3U), ((in.head(17) % 10U) < 7U ? static_cast<int>(in.head(17) % 10U) : static_cast<int>(vp::ops::K_INNER_STRIDED) + static_cast<int>(in.head(17) % 10U) - 7), in.head(15), in.head(16), in.head(18)};
 	vp::with_root<Cfg, ELEMT, D>(r, [&](auto& root, Model m, ELEMT const* base, long N) {
 		C18Fin fin{base, N, plan, ctx};
 		vp::Interp<C18Fin, Cfg::based, 4> interp(in, ctx, fin);
